@@ -43,6 +43,17 @@ class C05(vlib.HistoryProp):
         k = rng.choice(LITKINDS if kinds9 else ["n", "i", "f", "s", "v"])
         return rng.choice(KIND9[k])
 
+    def park(self, rng):
+        """a step `P..`: the thread parks (wait 5 / pause) with a helper that gives it orders while it is parked;
+        only the last order may let it go on (or delete it), so no order ever meets a thread that is gone"""
+        acts = []
+        for _ in range(rng.choice([0, 1, 1, 2])):
+            acts.append("%d%s" % (rng.choice([0, 1, 2]), rng.choice(["W5", "U"])))
+        last = rng.choice(["W0", "W1", "W2", "W5", "D", "U", None])
+        if last:
+            acts.append("%d%s" % (rng.choice([0, 1, 2]), last))
+        return ":".join([rng.choice(["Pw5", "Pp"])] + acts)
+
     def sched(self, rng, which, d=None):
         """-> (steps text list, final or None).  which: sync | waits | pause | kill | never | mixed"""
         w = lambda: rng.choice(WAITS) if d is None else d
@@ -58,7 +69,7 @@ class C05(vlib.HistoryProp):
             return ["w%d" % w()] * rng.choice([0, 1]), rng.choice(["k%d", "q%d"]) % w()
         if which == "never":
             return ["w%d" % w()] * rng.choice([0, 1]), "h"
-        steps = [rng.choice(["w%d", "p%d"]) % w() for _ in range(rng.choice([0, 1, 2, 3]))]
+        steps = [(rng.choice(["w%d", "p%d"]) % w()) if rng.random() < 0.7 else self.park(rng) for _ in range(rng.choice([0, 1, 2, 3]))]
         return steps, None
 
     def upper_level(self, rng):
@@ -185,6 +196,25 @@ class C05(vlib.HistoryProp):
                     ops += post + ["T 1", "X", "Y 1", "T 9", "X", "X"]
                     cases.append(Case("k%d" % k, "", ops, "exhaustive-kill-%dholders" % nh))
                     k += 1
+        # orders given to a PARKED thread by another thread: `t wait e` (re-arm / resume with a delay) and `t pause`
+        # on a thread parked in a timed wait or paused, then kill / Reset / the delay elapses and the thread ends
+        # with a value; 0..3 holders of the pending result
+        progs = ["1W5:1D", "1W5", "1W5:2W5:1D", "1U:1D", "1U:2W1", "1U", "1W2", "0W5:0D", "1W0", "2U:0W5:1D", "0U:0W0", "1W5:1U:1D"]
+        for park in ["Pw5", "Pp"]:
+            for hp in progs:
+                for nh in range(4):
+                    for z in (False, True):
+                        ops = ["C 1 0 %s:%s,ei3 -" % (park, hp), "C 1 0 w4,es1 -"]
+                        ops += ["D 0"] if nh == 0 else ["Y 0"] * (nh - 1) + (["V 0"] if nh >= 3 else [])
+                        for fr in range(9):
+                            ops += ["T 1", "X"]
+                            if z and fr == 2:
+                                ops += ["Y 0", "Z", "Y 0"]
+                            if fr == 1:
+                                ops.append("Y 0")
+                        ops += ["T 60", "X"]
+                        cases.append(Case("h%d" % k, "", ops, "exhaustive-orders-%dholders" % nh))
+                        k += 1
         # results that are pending results of sub-threads: every combination of a forwarding thread,
         # a sub-thread (chain) and a pattern of host copies / destructions / Reset around the events
         tops = ["t,L", "w1,t,L", "t,w1,L", "t,w3,L", "p1,t,L", "t,p3,L", "t,k2", "t,q2", "t,h", "w1,t,w1,L", "t,w5,L", "t,p0,L"]
@@ -227,7 +257,11 @@ class C05(vlib.HistoryProp):
         direct = []
         for i, l in enumerate(m):
             parts = l.split(" | ")
-            if len(parts) == 3 and parts[2].endswith("th=0"):
+            if len(parts) == 3:
+                cnt = dict(x.split("=") for x in parts[2].split() if "=" in x)
+                if cnt.get("th") != cnt.get("vm"):
+                    direct.append("observation %d: %s threads but %s VMs (a VM leaked or dangles)" % (i, cnt.get("th"), cnt.get("vm")))
+            if len(parts) == 3 and " th=0 " in " " + parts[2] + " ":
                 # independent of the model: no thread is alive, so no record may still be pending
                 for r in parts[1].split():
                     if r.endswith(",p") or r.endswith("=p"):
@@ -320,11 +354,12 @@ def branch_coverage(cases):
 def check(res, tier, seed):
     res.cov["rule"] += ("C05: corpus; every argument list of length 0..3 over 6 value kinds x every parameter count 0..3 x 4 completion schedules "
                         "(sync, timed waits, pause+resume by a helper thread, killed) with copies/relocations of the pending record and a missing-label call; "
+                        "orders to a parked thread from another thread (`t wait e` with e > 0, `t pause`; parked in a timed wait / paused; then kill, Reset or end with a value; 0..3 holders); "
                         "results that are pending results of sub-threads (`local.sr = thread s1` ... `end local.sr`): 12 forwarding threads x 15 sub-threads/chains x 8 patterns of host copies, destructions and Reset around every event; "
                         "a thread destroyed before its end (deleted while parked in a pause/wait, Reset; destroyed while executing: self-delete inside the call / after a wait, deleted by a thread it starts at depth 1 and 2, by an endon) with 0..4 holders and copies made before/after; "
                         "every sequence of <= 3 (thorough: 4) record operations (copy, relocate, move, destroy, copy-/move-assign of result cells) on two pending calls; "
                         "seeded random histories (argument/parameter lists to length 8, 9 value kinds, all schedules, record operations, frames, Reset); "
-                        "non-trivial = a record showed `pending` and later the delivered value; direct check on the implementation: no record is pending when no thread is alive. ")
+                        "non-trivial = a record showed `pending` and later the delivered value; direct checks on the implementation: no record is pending when no thread is alive; as many ScriptVMs as ScriptThreads. ")
     pst = vlib.history_check(res, HP, tier, seed)
     try:
         res.cov["c05_exercised"] = branch_coverage(HP.gen(tier, seed))
